@@ -5,6 +5,7 @@ From Coq Require Import List Arith Bool NArith.
 From Conductor Require Import Model.Loader Model.Planner Model.Exec Model.RunCase
   Proofs.ExecInv Proofs.ExecTheorems Proofs.ExecMain Proofs.LoaderProofs Proofs.Compose
   Model.Reaper Proofs.ReaperProofs.
+From Conductor Require Import Gen.Generated Proofs.GenTie.
 Import ListNotations.
 
 (* progress: every iteration of the main loop launches, skips or completes an operation, so the
@@ -109,6 +110,13 @@ Example C09_reaper_nonvacuous :
   exists s, rrun false rinit [EvCall; EvTest; EvExit 7 0; EvExit 8 3; EvDeliver; EvRead; EvHandler; EvTest] = Some s /\
             returned s = [(8, 3)] /\ rcs s = [(7, 0)] /\ waiting s.
 Proof. eexists. split; [vm_compute; reflexivity|]. split; [reflexivity|]. split; [reflexivity|]. right. discriminate. Qed.
+
+(* Tie to the source, re-checked on every run: the launch conditions of the model are the ones
+   TRANSLATED from Executor._launch_ops_if_able in the working tree (Gen/Generated.v gen_gate_open) *)
+Theorem C09_gate_is_the_sources : forall jobs s,
+  gate_open jobs s = gen_gate_open (has_ops s) (has_par s) (runpar s) (inflight s) jobs.
+Proof. exact gate_tie. Qed.
+Print Assumptions C09_gate_is_the_sources.
 
 Example C09_nonvacuous :
   run_plan ex_plan 2 false ex_orc 7 0 =
